@@ -48,6 +48,7 @@ type FuncSpec struct {
 	HasMod   bool
 	Loops    []*Clause
 	Asserts  []*Clause
+	Sets     []*Clause
 	Attrs    map[string]bool
 	Trusted  bool
 	File     string
@@ -163,6 +164,20 @@ func (db *SpecDB) LoadFile(path string, pkgPath string, trusted bool) error {
 			} else {
 				cur.Ensures = append(cur.Ensures, c)
 			}
+		case "sets":
+			// sets <ghost> = <expr> : definitional ghost update performed at every call (nothing to prove in the callee)
+			if cur == nil {
+				return fail(fmt.Errorf("clause outside func"))
+			}
+			parts := strings.SplitN(rest, "=", 2)
+			if len(parts) != 2 {
+				return fail(fmt.Errorf("sets needs <ghost> = <expr>"))
+			}
+			ex, err := ParseExpr(strings.TrimSpace(parts[1]))
+			if err != nil {
+				return fail(err)
+			}
+			cur.Sets = append(cur.Sets, &Clause{Kind: "sets", Key: strings.TrimSpace(parts[0]), Src: rest, Expr: ex, File: path, Line: ln})
 		case "modifies":
 			if cur == nil {
 				return fail(fmt.Errorf("clause outside func"))
